@@ -87,6 +87,11 @@ def build_class(spec):
         def m(self, x):
             return self.p * x + self.q + a
 
+        def bump(self):
+            """what a task does to an object it received: change it, then send it back"""
+            self.p = self.p + 1
+            return self.p
+
         def __getstate__(self):
             return dict(self.__dict__)
 
@@ -106,6 +111,17 @@ def build_class(spec):
     elif callvia == "own":
         class Thing(Base):
             __call__ = call
+    elif callvia == "objcall":
+        # `__call__` is a callable object, not a plain function (no `self` binding: it is not a descriptor)
+        class Helper:
+            def __init__(self, k):
+                self.k = k
+
+            def __call__(self, x, y=0, *, z=0):
+                return 7 * x + self.k + 10 * y + 100 * z
+
+        class Thing(Base):
+            __call__ = Helper(b)
     else:
         class Thing(Base):
             pass
@@ -125,6 +141,15 @@ def build_original(case):
     cls = build_class(spec)
     args, kw = ctor_args(spec)
     return cls(*args, **kw)
+
+
+def original_at(case, k):
+    """the bare object after the mutations applied before round trips 0..k-1"""
+    o = build_original(case)
+    for j in case.get("bump", []):
+        if j < k:
+            o.bump()
+    return o
 
 
 def build_wrapped(case):
@@ -260,6 +285,13 @@ class Prop(E2Prop):
                     [("k", k0), ("n", k1)], 3)
                 add({"k": "inst", "callvia": "none", "a": 1, "b": 1, "attrs": {}, "ctor": {"args": [2], "kw": {}}},
                     [("n", k0), ("n", k1)], 2)
+        for keep in (0, 1):
+            oc = {"k": "inst", "callvia": "objcall", "a": 2, "b": 5, "attrs": {"tag": 4}, "ctor": {"args": [6], "kw": {"q": 9, "r": 8}}}
+            add(oc, [("n", keep)], 2)
+            add(dict(oc, k="class"), [("k", keep)], 2)
+            # the object is changed between two round trips (a task increments a counter and sends the object back)
+            cs.append({"obj": dict(oc, callvia="own"), "layers": [["n", keep]], "trips": 3, "reads": ["p", "m", "tag"], "bump": [1, 2]})
+            cs.append({"obj": dict(oc, callvia="none", k="class"), "layers": [["k", keep]], "trips": 2, "reads": ["p", "q"], "bump": [0, 1]})
         # 0 round trips (pure forwarding), no reads
         add({"k": "lambda", "a": 1, "b": 0, "attrs": {}}, [("n", 1)], 0, ())
         return cs
@@ -290,7 +322,7 @@ class Prop(E2Prop):
             kw = {k: rng.randint(0, 9) for k in rng.sample(["p", "q", "r"][nargs:], rng.randint(0, 3 - nargs))}
             if nargs == 0:
                 kw["p"] = rng.randint(0, 9)
-            obj = {"k": "inst" if r < 0.7 else "class", "callvia": rng.choice(["none", "own", "base"]), "a": a, "b": b,
+            obj = {"k": "inst" if r < 0.7 else "class", "callvia": rng.choice(["none", "own", "base", "objcall"]), "a": a, "b": b,
                    "attrs": attrs, "ctor": {"args": [rng.randint(0, 9) for _ in range(nargs)], "kw": kw}}
         first = "k" if obj["k"] == "class" else "n"
         layers = [[first, rng.randint(0, 1)]]
@@ -302,16 +334,20 @@ class Prop(E2Prop):
             names += ["p", "q", "r", "m"]
         reads = rng.sample(names, rng.randint(1, min(5, len(names))))
         reads += [n for n in attrs if n in RESERVED]
-        return {"obj": obj, "layers": layers, "trips": trips, "reads": reads}
+        case = {"obj": obj, "layers": layers, "trips": trips, "reads": reads}
+        if obj["k"] not in FUNC_KINDS and trips >= 1 and rng.random() < 0.4:
+            case["bump"] = sorted(rng.sample(range(trips), rng.randint(1, trips)))
+        return case
 
     # -- model ---------------------------------------------------------------------------
     def model_lines(self, case):
-        o = build_original(case)
-        first = parse(observe(o, case))
-        vals = first["reads"].split(",") if first["reads"] != "-" else []
-        attrs = [f"{name_token(n)}={v[1:]}" for n, v in zip(case["reads"], vals) if v.startswith("v")]
-        calltok = "0" if first["call"] == "TypeError" else first["call"]
-        track = "0" if first["gen"] == "-" else "1"
+        def head_of(k):
+            first = parse(observe(original_at(case, k), case))
+            vals = first["reads"].split(",") if first["reads"] != "-" else []
+            attrs = [f"{name_token(n)}={v[1:]}" for n, v in zip(case["reads"], vals) if v.startswith("v")]
+            calltok = "0" if first["call"] == "TypeError" else first["call"]
+            track = "0" if first["gen"] == "-" else "1"
+            return f"{first['callable']} {calltok} {track} {'/'.join(attrs) or '-'}"
         reads = ",".join(name_token(n) for n in case["reads"]) or "-"
         layers = []
         for kind, keep in case["layers"]:
@@ -319,10 +355,9 @@ class Prop(E2Prop):
                 layers.append(f"n{keep}")
             else:
                 layers.append(f"k{keep}{0 if case['obj']['callvia'] == 'none' else 1}")
-        head = f"{first['callable']} {calltok} {track} {'/'.join(attrs) or '-'}"
-        lines = [f"stage 0 {head} - {reads}"]
+        lines = [f"stage 0 {head_of(0)} - {reads}"]
         for k in range(case["trips"] + 1):
-            lines.append(f"stage {k} {head} {','.join(layers)} {reads}")
+            lines.append(f"stage {k} {head_of(k)} {','.join(layers)} {reads}")
         return lines
 
     # -- implementation ------------------------------------------------------------------
@@ -335,8 +370,10 @@ class Prop(E2Prop):
         except Exception as e:  # noqa: BLE001
             return out + [f"ERR:wrap:{type(e).__name__}"]
         out.append(observe(v, case))
-        for _ in range(case["trips"]):
+        for k in range(case["trips"]):
             try:
+                if k in case.get("bump", []):
+                    v.bump()                     # the holder changes the object between two trips
                 if isinstance(v, base_t):
                     v = pickle.loads(pickle.dumps(v))
                 else:
@@ -361,6 +398,8 @@ class Prop(E2Prop):
         d12 = None
         for k, line in enumerate(out[1:]):
             st = parse(line)
+            if case.get("bump"):
+                orig = parse(observe(original_at(case, k), case))
             ls = [] if st["layers"] == "-" else st["layers"].split("/")
             flags = [int(l.split(":")[1]) for l in ls]
             if k == 0:
